@@ -10,6 +10,16 @@ type syntaxChildMultiIdentifier struct {
 	unionQualifier syntaxUnionQualifier
 }
 
+func (i *syntaxChildMultiIdentifier) setNext(next syntaxNode) {
+	for _, identifier := range i.identifiers {
+		identifier.setNext(next)
+	}
+	if i.isAllWildcard {
+		i.unionQualifier.setNext(next)
+	}
+	i.syntaxBasicNode.setNext(next)
+}
+
 func (i *syntaxChildMultiIdentifier) retrieve(
 	root, current interface{}, container *bufferContainer) errorRuntime {
 
